@@ -343,6 +343,34 @@ def rule_remain(ctx):
                     f"{len(pushes)} (expected 2 and 1, one contraction)")
     else:
         r.ok(k, C.loc(f, w), "loops while more than one node; each round pops two, contracts, pushes one")
+    # (seed C05_3) the collection the loop drains holds *every* remaining node
+    k = ctx.key(f, "C05-REMAIN", "all-nodes")
+    defs = ctx.r.local_assignments(f).get(heap, []) if heap else []
+    if heap is None or len(defs) != 1:
+        r.exempt(k, C.loc(f, w), f"the collection drained by the joining loop (`{heap}`) is not a single local "
+                 f"definition: coverage of all nodes not decided")
+    else:
+        d = defs[0]
+        if isinstance(d, ast.Call) and dotted(d.func) in ("list", "sorted") and d.args:
+            d = d.args[0]
+        src = None
+        filt = None
+        if isinstance(d, (ast.ListComp, ast.GeneratorExp)):
+            g = d.generators[0]
+            src = C.unparse(g.iter)
+            filt = [C.unparse(c, 40) for gg in d.generators for c in gg.ifs]
+        else:
+            src = C.unparse(d)
+            filt = []
+        if not src.startswith("self.nodes"):
+            r.violation(k, C.loc(f, defs[0]), f"`{heap}` is built from `{src}`, not from the simulator's remaining "
+                        f"nodes: nodes outside it are never joined")
+        elif filt:
+            r.violation(k, C.loc(f, defs[0]), f"`{heap}` leaves out the nodes failing `{filt[0]}`: they are never "
+                        f"joined, so the path ends with several tensors whenever the main phase leaves such nodes "
+                        f"(e.g. a closed disconnected component, which is a scalar only *after* it was contracted)")
+        else:
+            r.ok(k, C.loc(f, defs[0]), f"`{heap}` is built from all of `{src}`")
     # early exits of optimize_remaining_by_size: only when nothing is left to join
     k = ctx.key(f, "C05-REMAIN", "early-return")
     bad = []
@@ -516,6 +544,7 @@ def rule_complete(ctx):
                 r.violation(k2, C.loc(f, j), f"the communities `{nm}` are joined without a guard for a single "
                             f"community: contract_nodes returns the node itself, it stays childless and the "
                             f"loop never ends (or the subgraph is never contracted)")
+    _returns_behind_loop(ctx, r, f, cfg, parents, w, "dividing loop `while tree.childless`")
     f = b.lookup("build_agglom")
     C.require(f is not None, "build_agglom not found")
     fl = ctx.flow(f)
@@ -551,7 +580,52 @@ def rule_complete(ctx):
             r.ok(k, C.loc(f, tails[0]), f"`{C.unparse(tails[0].test)}` → join, on every path from the loop to the return")
         else:
             r.violation(k, C.loc(f, tails[0]), "the tail join can be bypassed")
+    _returns_behind_loop(ctx, r, f, cfg, parents, w, "grouping loop and its tail join")
     return r
+
+
+def _only_single_input(t):
+    """`X.N == 1`, `X.N <= 1`, `len(inputs) < 2` ...: satisfied by no count above one."""
+    if not (isinstance(t, ast.Compare) and len(t.ops) == 1 and isinstance(t.comparators[0], ast.Constant)
+            and isinstance(t.comparators[0].value, int)):
+        return False
+    l = t.left
+    is_count = (isinstance(l, ast.Attribute) and l.attr == "N") or \
+        (isinstance(l, ast.Call) and dotted(l.func) == "len" and l.args and (dotted(l.args[0]) or "").split(".")[-1] == "inputs")
+    if not is_count:
+        return False
+    c = t.comparators[0].value
+    fn = {ast.Eq: lambda a: a == c, ast.LtE: lambda a: a <= c, ast.Lt: lambda a: a < c}.get(type(t.ops[0]))
+    return fn is not None and not any(fn(n_) for n_ in range(2, 8))
+
+
+def _returns_behind_loop(ctx, r, f, cfg, parents, w, what):
+    """(seed C05_2) a builder hands its tree out only behind its completing loop: every `return` is
+    dominated by the loop's test and lies outside its body."""
+    k = ctx.key(f, "C05-COMPLETE", "returns-behind-loop")
+    head = cfg.node_of(w)
+    inside = {id(x) for x in ast.walk(w)}
+    bad = []
+    n_ret = 0
+    for n in walk_local(f.node):
+        if not isinstance(n, ast.Return):
+            continue
+        n_ret += 1
+        rn = cfg.containing(n, parents)
+        if id(n) in inside or not cfg.dominates(head.id, rn.id):
+            # a single input needs no contraction: an exit taken only for N <= 1 is complete
+            ifs = C.enclosing_ifs(f, n)
+            if ifs and ifs[0][1] and _only_single_input(ifs[0][0].test):
+                continue
+            bad.append(n)
+    if bad:
+        ifs = C.enclosing_ifs(f, bad[0])
+        cond = f" under `{C.unparse(ifs[0][0].test, 50)}`" if ifs else ""
+        r.violation(k, C.loc(f, bad[0]), f"`{C.unparse(bad[0], 40)}`{cond} hands the tree out without passing "
+                    f"the {what}: for the inputs that take this exit the tree has nodes that were never "
+                    f"contracted (incomplete tree; its path raises or omits inputs)")
+    else:
+        r.ok(k, f.loc, f"all {n_ret} return(s) lie behind the {what}")
 
 
 # ------------------------------------------------------------------ shared
